@@ -246,6 +246,7 @@ func scanSync(b []byte) (pods, ctrs []int, more bool, err error) {
 
 type recorder struct {
 	sync.Mutex
+	cutAfter int    // > 0: answer the (cutAfter+1)-th SynchronizeRequest with an RPC error (restart stream)
 	onChange func() // called (unlocked) after the record changed; pre-installed plugins flush to a file
 	nObjs    int
 	attempts []Attempt
@@ -324,6 +325,9 @@ func (r *recorder) serverIcpt(ctx context.Context, unmarshal ttrpc.Unmarshaler, 
 		}
 		r.Lock()
 		defer r.Unlock()
+		if r.cutAfter > 0 && len(r.plan) == r.cutAfter {
+			return status.Error(codes.Unavailable, "verif: connection cut mid-synchronization")
+		}
 		if len(r.plan) > r.nObjs+8 {
 			// No valid plan has more messages than objects (+1). The sender is running away
 			// (e.g. sending empty `more` messages for ever): cut it off instead of waiting for
@@ -443,6 +447,9 @@ type syncResult struct {
 func runCase(in *In, dir string) *Obs {
 	if in.Kind == "pre" {
 		return runCasePre(in, dir)
+	}
+	if in.Kind == "restart" {
+		return runCaseRestart(in, dir)
 	}
 	obs := emptyObs()
 	obs.Outcome, obs.Alive = "harness", true
